@@ -53,11 +53,18 @@ pub fn main(args: &BTreeMap<String, String>) {
             (0..dim).map(|_| if z { 0.0 } else { rng.gen_range(-4..=4) as f32 }).collect()
         };
         let steps = rng.gen_range(4..=22);
+        // the vector each id was last inserted with: an insert repeats it in 30% of the cases
+        // (unchanged upsert, re-insert of a deleted id with its old vector)
+        let mut last: std::collections::HashMap<usize, Vec<f32>> = std::collections::HashMap::new();
         for _ in 0..steps {
             let x: f64 = rng.gen();
             if x < 0.4 {
                 let id = rng.gen_range(1..=maxid);
-                let v = gen_vec(&mut rng);
+                let v = match last.get(&id) {
+                    Some(old) if rng.gen_bool(0.3) => old.clone(),
+                    _ => gen_vec(&mut rng),
+                };
+                last.insert(id, v.clone());
                 let r = catch_unwind(AssertUnwindSafe(|| ix.insert(id, &v)));
                 let (ok, err) = match r {
                     Ok(Ok(())) => (true, String::new()),
@@ -69,6 +76,30 @@ pub fn main(args: &BTreeMap<String, String>) {
                 let id = rng.gen_range(1..=maxid);
                 let r = catch_unwind(AssertUnwindSafe(|| ix.delete(id)));
                 writeln!(f, "{}", json!({"ev":"delete","case":case,"id":id,"ok":r.is_ok(),"obs":observe(&ix)})).unwrap();
+                // half of the deletes of a known id are followed by: an insert of another id, the re-insert of the
+                // deleted id with the vector it had, and a wide search (ordinary events, judged like any other)
+                if let (Some(old), true) = (last.get(&id).cloned(), rng.gen_bool(0.5)) {
+                    let other = 1 + (id % maxid);
+                    let ov = gen_vec(&mut rng);
+                    last.insert(other, ov.clone());
+                    for (i, v) in [(other, ov), (id, old.clone())] {
+                        let r = catch_unwind(AssertUnwindSafe(|| ix.insert(i, &v)));
+                        let (ok, err) = match r {
+                            Ok(Ok(())) => (true, String::new()),
+                            Ok(Err(e)) => (false, e),
+                            Err(p) => (false, format!("panic: {}", crate::engine::panic_msg(p))),
+                        };
+                        writeln!(f, "{}", json!({"ev":"insert","case":case,"id":i,"vec":vecj(&v),"ok":ok,"err":err,"obs":observe(&ix)})).unwrap();
+                    }
+                    let k = 12usize;
+                    let r = catch_unwind(AssertUnwindSafe(|| ix.search(&old, k, Some(100))));
+                    match r {
+                        Ok(res) => writeln!(f, "{}", json!({"ev":"search","case":case,"q":vecj(&old),"k":k,"ef":100,"ok":true,
+                            "res":res.iter().map(|(i, d)| json!([i, dist(*d)])).collect::<Vec<_>>(),"obs":observe(&ix)})).unwrap(),
+                        Err(p) => writeln!(f, "{}", json!({"ev":"search","case":case,"q":vecj(&old),"k":k,"ef":100,
+                            "ok":false,"err":crate::engine::panic_msg(p),"res":[],"obs":observe(&ix)})).unwrap(),
+                    }
+                }
             } else if x < 0.6 {
                 let k = rng.gen_range(0..=4);
                 let vs: Vec<(usize, Vec<f32>)> = (0..k).map(|_| (rng.gen_range(1..=maxid), gen_vec(&mut rng))).collect();
